@@ -285,3 +285,34 @@ def r5(cx):
     cx.obligations = ob0 + len(cx.instances[ib:])
     cx.discharged = di0 + len([i for i in cx.instances[ib:] if i["verdict"] == "holds"])
     cx.floor("lease-object save instances", len(cx.instances[ib:]), 10)
+
+
+def _is_uuid(c):
+    return bool(re.search(r"uuid::.*(::|>)(new_v4|now_v7)$", c))
+
+
+@rule("C08", "R6", "a lease is identified by a fresh id: the lease_id of every CompactionLease created by acquire_lease comes from a new random UUID and from nothing the caller supplies - "
+      "an id derived from the group makes a reclaimed lease indistinguishable from its predecessor, so the stale holder's renew / complete / fail act on the new holder's lease")
+def r6(cx):
+    n = 0
+    for name, pre in BACKENDS:
+        for k in cx.prog.sub_bodies(pre + "acquire_lease"):
+            b = cx.body(k)
+            if b is None:
+                continue
+            for (bi, si, st) in M.aggregates(b, lambda rv: rv.get("ak") == "adt" and (rv.get("adt") or "").endswith("metadata::CompactionLease")):
+                rv = st["rv"]
+                if "lease_id" not in (rv.get("fields") or []):
+                    continue
+                n += 1
+                o = M.operand_origins(b, rv["ops"][rv["fields"].index("lease_id")], at=(bi, si))
+                fresh = M.has_call(o, lambda c: _is_uuid(c))
+                from_caller = sorted({str(x[1]) + x[2] for x in o if x[0] in ("arg", "upvar") and str(x[1]) not in ("self",)})
+                other_calls = sorted({x[1][1] for x in o if x[0] == "call" and not _is_uuid(x[1][1]) and x[1][1] in cx.prog.calls})
+                if fresh and not from_caller and not other_calls:
+                    cx.passed(pre + "acquire_lease", "lease-id-is-fresh", [b.sp(bi, si)], name)
+                else:
+                    cx.violation(pre + "acquire_lease", "lease-id-is-fresh", "%s: the %s backend's new lease id %s: after an expiry and a re-acquisition of the same group the old holder's id names the new "
+                                 "holder's lease - its renew succeeds instead of reporting the loss, and its complete / fail ends a live lease" % (
+                                     b.sp(bi, si), name, ("derives from %s" % (from_caller or other_calls)) if (from_caller or other_calls) else "does not come from a new random UUID"), [b.sp(bi, si)])
+    cx.floor("CompactionLease constructions in acquire_lease", n, 2)
